@@ -133,6 +133,21 @@ def _mk_multi(rng, c, spec):
                 if inside and (tx is tx0 or (tx.gene2tx(v.gstart) is not None and rng.random() < 0.8)):
                     v2 = Small(gene, tx, v.gstart, v.ref, v.alt)
                     recs[(tx.id, v2.id)] = v2
+    if rng.random() < 0.06:
+        # a tiny non-coding isoform (4-7 nt: the first bases of the gene's first exon) and a deletion anchored on its third base
+        # that removes everything up to its last base (listed for every isoform in which it is exonic)
+        from harness.model import seqmodel as sm
+        gene = rng.choice(c.ref.genes)
+        L = rng.randint(4, 7)
+        if gene.txs[0].exons[0][0] == 0 and gene.txs[0].exons[0][1] > L + 3 and not any(t.exons == [(0, L)] for t in gene.txs):
+            tiny = sm.Tx(gene.txs[0].id[:-5] + f'{len(gene.txs) + 1:03d}.1', gene, [(0, L)], False)
+            gene.txs.append(tiny)
+            gs = c.ref.gene_seq(gene)
+            for tx in gene.txs:
+                if tx.gene2tx(2) is not None and tx.gene2tx(L - 1) is not None and tx.gene2tx(L) is not None or tx is tiny:
+                    v2 = Small(gene, tx, 2, gs[2:L], gs[2])
+                    recs[(tx.id, v2.id)] = v2
+            c.note['tiny_isoform'] = L
     if not recs:
         return False
     vs = sorted(recs.values(), key=lambda v: (v.gene.id, v.gstart, v.gend, v.alt, v.tx.id))
@@ -276,6 +291,150 @@ def _mk_as_nested_fs(rng, c, spec):
     return True
 
 
+def _mk_fs_pair(rng, c, spec):
+    """Two COMPENSATING frameshifting indels (+k then -k, or -k then +k; k = 1, 2) 12-90 nt apart inside the CDS with no stop
+    codon in the shifted frame between them (the variant path leaves the annotated frame and re-enters it), plus 1-3 small
+    variants 30-200 nt downstream of the re-entry point: peptides after the re-entry carry a downstream variant only, and the
+    label of such a peptide must not name one of the two indels alone. Half of the cases add a further variant upstream."""
+    from harness.model import seqmodel as sm
+    c.ref = refgen.make_reference(rng, n_genes=1, coding_p=1.0, sec_p=0.0, nf_p=0.0, min_exons=1, max_exons=3,
+                                  intron_len=(30, 90), exon_len=(150, 320))
+    tx = c.ref.genes[0].txs[0]
+    if not tx.coding or tx.cds[1] - tx.cds[0] < 240:
+        return False
+    gs = c.ref.gene_seq(tx.gene)
+    ts = c.ref.tx_seq(tx)
+    k = rng.choice([1, 1, 2])
+    for _ in range(40):
+        t1 = rng.randint(tx.cds[0] + 6, tx.cds[1] - 150)
+        t2 = t1 + rng.randint(12, 90)
+        if t2 + k + 2 >= tx.cds[1] - 40:
+            continue
+        ins_first = rng.random() < 0.5
+        ti, td = (t1, t2) if ins_first else (t2, t1)
+        g_i, g_d = tx.tx2gene(ti), tx.tx2gene(td)
+        # the deleted bases must lie in one exon
+        if tx.gene2tx(g_d + k) != td + k or tx.gene2tx(g_d + k + 1) is None:
+            continue
+        ins = ''.join(rng.choice('ACGT') for _ in range(k))
+        # the transcript with both records applied: no stop between the two indels in the frame of the annotated start
+        if ins_first:
+            m = ts[:ti + 1] + ins + ts[ti + 1:td + 1] + ts[td + 1 + k:]
+        else:
+            m = ts[:td + 1] + ts[td + 1 + k:ti + 1] + ins + ts[ti + 1:]
+        aa = sm.translate(m[tx.cds[0]:])
+        stop = aa.find('*')
+        if stop != -1 and tx.cds[0] + 3 * stop < t2 + 6:
+            continue
+        v_ins = Small(tx.gene, tx, g_i, gs[g_i], gs[g_i] + ins)
+        v_del = Small(tx.gene, tx, g_d, gs[g_d:g_d + k + 1], gs[g_d])
+        break
+    else:
+        return False
+    vs = {v_ins.id: v_ins, v_del.id: v_del}
+    for _ in range(rng.randint(1, 3)):
+        t = t2 + k + rng.randint(30, 200)
+        if t >= tx.cds[1] - 3:
+            continue
+        v = gvfgen.rand_small(rng, c.ref, tx, tx.tx2gene(t), max_indel=2, snv_p=0.85)
+        if v is not None:
+            vs[v.id] = v
+    if len(vs) < 3:
+        return False
+    if rng.random() < 0.5:
+        t = rng.randint(tx.cds[0] + 3, t1 - 1) if t1 - 1 > tx.cds[0] + 3 else None
+        v = gvfgen.rand_small(rng, c.ref, tx, tx.tx2gene(t), max_indel=1, snv_p=0.9) if t is not None else None
+        if v is not None:
+            vs[v.id] = v
+    vs = sorted(vs.values(), key=lambda v: (v.gstart, v.gend, v.alt))
+    # overlapping records cannot be combined: keep the pair intact, drop others that touch it
+    keep = []
+    for v in vs:
+        if v in (v_ins, v_del) or all(v.gend < w.gstart or w.gend < v.gstart for w in (v_ins, v_del)):
+            keep.append(v)
+    if rng.random() < 0.4:
+        c.files = [('v1.gvf', 'gINDEL', [v for v in keep if v in (v_ins, v_del)]),
+                   ('v2.gvf', 'gSNP', [v for v in keep if v not in (v_ins, v_del)])]
+        if not c.files[1][2]:
+            return False
+    else:
+        c.files = [('v1.gvf', 'gSNP', keep)]
+    c.cfg['miscleavage'] = rng.choice([0, 1, 2, 2])
+    return True
+
+
+def _mk_paralog(rng, c, spec):
+    """Two homologous genes: gene 2 is a copy of gene 1 (own chromosome) that differs by 1-3 substitutions inside the CDS
+    (biased to the first 25 codons); the records on gene 2 revert (some of) the differences, so variant peptides of gene 2 EQUAL
+    canonical peptides of gene 1 and must be withheld. In half of the cases the length limits sit exactly on such a peptide
+    (max_length / min_length == its length, with and without the initiator Met): the canonical pool has to be exact at the
+    limits."""
+    from harness.model import seqmodel as sm
+    c.ref = refgen.make_reference(rng, n_genes=1, coding_p=1.0, sec_p=0.0, nf_p=0.0, min_exons=1, max_exons=3,
+                                  intron_len=(30, 90), exon_len=(80, 220))
+    g1 = c.ref.genes[0]
+    t1 = g1.txs[0]
+    if not t1.coding or t1.cds[1] - t1.cds[0] < 90:
+        return False
+    c.ref.chroms['chr2'] = c.ref.chroms[g1.chrom]
+    g2 = sm.Gene('ENSG00000000002.1', 'chr2', g1.start, g1.end, g1.strand, 'GENE2', g1.biotype)
+    t2 = sm.Tx('ENST00000002001.1', g2, t1.exons, True, cds=t1.cds, sec=[], cds_start_nf=False, mrna_end_nf=False)
+    g2.txs.append(t2)
+    c.ref.genes.append(g2)
+    ts = c.ref.tx_seq(t1)
+    ncod = (t1.cds[1] - t1.cds[0]) // 3
+    diffs = {}
+    for _ in range(rng.randint(1, 3)):
+        ci = rng.randint(1, min(ncod - 1, 25)) if rng.random() < 0.6 else rng.randint(1, ncod - 1)
+        t = t1.cds[0] + 3 * ci + rng.randrange(3)
+        cur = c.ref.tx_seq(t2)
+        alt = rng.choice([b for b in 'ACGT' if b != cur[t]])
+        m = cur[:t] + alt + cur[t + 1:]
+        cod = m[t1.cds[0] + 3 * ci:t1.cds[0] + 3 * ci + 3]
+        if cod in ('TAA', 'TAG', 'TGA') or t in diffs:
+            continue
+        if sm.translate(cod) == sm.translate(cur[t1.cds[0] + 3 * ci:t1.cds[0] + 3 * ci + 3]):
+            continue                     # synonymous: no difference at the peptide level
+        c.ref.set_gene_base(g2, t2.tx2gene(t), alt)
+        diffs[t] = (ts[t], alt)
+    if not diffs:
+        return False
+    gs2 = c.ref.gene_seq(g2)
+    vs = {}
+    for t, (orig, alt) in diffs.items():
+        if rng.random() < 0.85:
+            g = t2.tx2gene(t)
+            v = Small(g2, t2, g, gs2[g], orig)
+            vs[(t2.id, v.id)] = v
+    if not vs:
+        return False
+    for tx in (t2, t1):
+        if rng.random() < 0.35:
+            for v in gvfgen.make_small_variants(rng, c.ref, tx, rng.randint(1, 2), snv_p=0.8):
+                if all(v.gend < w.gstart or w.gend < v.gstart for (tid, _), w in vs.items() if tid == tx.id):
+                    vs[(tx.id, v.id)] = v
+    c.files = [('v1.gvf', 'gSNP', sorted(vs.values(), key=lambda v: (v.gene.id, v.gstart, v.gend, v.alt)))]
+    c.note['paralog_diffs'] = sorted(diffs)
+    if rng.random() < 0.5 and 'max_length' not in (spec.get('cfg') or {}) and 'min_length' not in (spec.get('cfg') or {}):
+        # limits exactly on a canonical peptide of gene 1 that covers a difference (N-terminal ones with / without Met)
+        lim = limits_of(dict(c.cfg, min_length=5, max_length=60, min_mw=0.))
+        prot = c.ref.protein(t1)
+        cands = []
+        for p, first, _ in dg.digest(prot, lim, nterm_m=False):
+            st = prot.find(p)
+            if any(st <= (t - t1.cds[0]) // 3 < st + len(p) for t in diffs) and 6 <= len(p) <= 45:
+                cands.append((p, first))
+        if cands:
+            p, first = rng.choice(sorted(cands))
+            L = len(p) - (1 if first and rng.random() < 0.6 else 0)
+            if rng.random() < 0.7:
+                c.cfg['max_length'] = max(L, c.cfg['min_length'])
+            else:
+                c.cfg['min_length'] = min(L, c.cfg['max_length'])
+            c.note['boundary_len'] = L
+    return True
+
+
 def _mk_nc_stoploss(rng, c, spec):
     """Non-coding transcript (every ATG opens an ORF) with a planted ORF whose start codon is CREATED by an SNV (start gain) or is
     a reference ATG, followed by one or two in-frame stop codons that SNVs REMOVE (stop loss), with cleavable sequence behind
@@ -376,6 +535,13 @@ def _mk_fusion(rng, c, spec, with_var=False):
         j = rng.choice(d.sec) + rng.choice([3, 3, 3, 2, 4, 6])
         if 1 <= j <= d.tx_len():
             dpos = d.tx2gene(j - 1) + 1
+    if d.coding and not d.cds_start_nf and not intronic_d and rng.random() < 0.12:
+        # breakpoint inside / right behind the donor's start codon: 1-4 bases from the first start-codon base are kept (with two
+        # kept bases the codon is completed by the acceptor: a start codon only if the first acceptor base is G)
+        j = d.cds[0] + rng.choice([1, 2, 2, 2, 3, 3, 4])
+        if 1 <= j <= d.tx_len():
+            dpos = d.tx2gene(j - 1) + 1
+            c.note['fusion_in_start_codon'] = j - d.cds[0]
     ref_base = dgs[min(dpos, len(dgs) - 1)]
     fus = Fusion(g1, d, dpos, g2, a, apos, ref_base)
     c.files = [('fusion.gvf', 'Fusion', [fus])]
